@@ -451,6 +451,8 @@ def Chain (P : ℝ → ℝ × ℝ × ℝ × ℝ → Out ℝ → Prop) : ℝ → 
   | s, i :: is, o :: os => P s i o ∧ Chain P o.storage is os
   | _, _, _ => False
 
+/-- the induction behind `run_balance`: from any state with non-negative storage every further step completes and satisfies
+`StepOK` (one `calcOutflow_balance` + `calcOutflow_nonneg` per element of the series) -/
 theorem scan_chain (su : Setup ℝ) (k area dead dt : ℝ) (hdt : 0 < dt) (hb : su.bias < 0.999)
     (hS : ∀ (i : ℝ × ℝ × ℝ × ℝ) (prev q : ℝ),
       0 ≤ sIndex (mkCtx i.1 i.2.1 su.bias prev ((i.2.2.2 - i.2.2.1) / dt) area dead dt su.x k su.qlimit su.klimit su.koffset) q) :
@@ -519,8 +521,24 @@ theorem run_balance (bias k x area dead dt s : ℝ) (hb0 : 0 ≤ bias) (hb1 : bi
   have := scan_chain (setup bias k x dt) k area dead dt hdt (f7 hb1) hS xs ⟨0.0, 0.0, s, 0.0⟩ hs hlat
   exact this
 
-/-- non-vacuity: a parameter set of the region and the exit a trickle into an empty reach below its dead storage takes -/
-example : (0 : ℝ) ≤ 0 ∧ (0 : ℝ) < 0.999 ∧ (0 : ℝ) < 5000 ∧ (0 : ℝ) < 0.8 ∧ (0.8 : ℝ) ≤ 1 ∧ (0 : ℝ) ≤ 1000 ∧ (0 : ℝ) < 86400 := by
+/-- non-vacuity, and the witness of the repaired defect D16: dead storage 1000 m³, empty start, inflow 0.001 m³/s, Δt = 86400 s,
+`k = 5000`, `m = 0.8`, zero bias. The hypotheses of `calcOutflow_balance` hold, the call takes the `zero-at-minqi` exit and
+reports the balance storage 86.4 m³ (the unrepaired code reported the dead storage, 1000 m³). -/
+example : (0 : ℝ) < 86400 ∧ (0 : ℝ) ≤ 0 ∧ (0 : ℝ) < 0.999 ∧
+    calcOutflow (1/1000 : ℝ) 0 0 0 0 0 0 0 1000 86400 0.8 5000 0 5000 0 = .ok ⟨0, 0, 432/5, "zero-at-minqi"⟩ := by
+  refine ⟨by norm_num, le_refl _, by norm_num, ?_⟩
+  have hS : sIndex (mkCtx (1/1000 : ℝ) 0 0 0 0 0 1000 86400 0.8 5000 0 5000 0) (0 * (1/1000 + 0)) = 1000 := by
+    rw [sIndex_eq]; simp [mkCtx]
+  have hN : newStorage (mkCtx (1/1000 : ℝ) 0 0 0 0 0 1000 86400 0.8 5000 0 5000 0) = 432/5 := by
+    rw [newStorage_eq, nef_eq]
+    simp only [mkCtx, RealNum.gmax_eq, z0]
+    norm_num
+  have hM : (rr (mkCtx (1/1000 : ℝ) 0 0 0 0 0 1000 86400 0.8 5000 0 5000 0) (0 * (1/1000 + 0))).massBalance = 1000 - 432/5 := by
+    rw [rr_massBalance _ _ (by show (0:ℝ) < 0.999; norm_num), hS, hN]
+    simp [mkCtx]
+  unfold calcOutflow
+  simp only [runRouting_real, RealNum.isNaN_eq, Bool.or_self, Bool.false_eq_true, if_false, z0]
+  rw [if_pos (by rw [hM, mbl_eq]; norm_num), hN]
   norm_num
 
 end StorageRouting
